@@ -383,9 +383,354 @@ def run_numerals(rep, drv, cfg, per_chunk=400):
     log("[%s] %s: %d numeral strings, %d mismatching results" % (rep.prop, cfg, len(allc), nbad))
 
 
+# --------------------------------------------------------------------------
+# C02: numerals written in the program text (LuaNumSrc.tla): every emitted (expression, context) becomes the body of one
+# Lua function; the values it returns are compared with the list the specification emitted.
+
+SRC_PRELUDE = "local E, P = emit, pcall\nlocal function id(...) return ... end\n"
+
+
+def src_body(tmpl, e):
+    x = "".join(e["s"])
+    if not e["atom"]:
+        x = "(" + x + ")"
+    return "".join(x if p == "@" else p for p in tmpl)
+
+
+def start_srcnum_tlc(cfg):
+    """TLC for the srcnum family runs in the background while the other families are processed."""
+    import threading
+    box = {"lines": [], "res": None, "err": None}
+
+    def work():
+        try:
+            box["res"] = run_tlc("LuaNumSrc", cfg, timeout=3000, on_line=box["lines"].append, workers=tlc_workers() or max(2, NCPU // 3))
+        except BaseException as ex:       # re-raised in the main thread
+            box["err"] = ex
+
+    th = threading.Thread(target=work)
+    th.start()
+    box["thread"] = th
+    return box
+
+
+def run_srcnum(rep, drv, cfg, box=None, per_chunk=250):
+    cov = rep.cov
+    box = box or start_srcnum_tlc(cfg)
+    box["thread"].join()
+    if box["err"] is not None:
+        raise box["err"]
+    res, lines = box["res"], box["lines"]
+    if res.violation:
+        raise Infra("LuaNumSrc %s: %s" % (cfg, res.violation))
+    ctxl = [l for l in lines if l["t"] == "ctx"]
+    if len(ctxl) != 1:
+        raise Infra("%s: no context table" % cfg)
+    ctx = ctxl[0]["ctx"]
+    groups = [l for l in lines if l["t"] == "src"]
+    if len(groups) != 3 * len(set((l["k"], l["d"]) for l in groups)) or len(set(l["k"] for l in groups)) != 65:
+        raise Infra("%s: incomplete emission (%d group lines)" % (cfg, len(groups)))
+    groups.sort(key=lambda l: (l["k"], l["d"], l["g"]))
+    items = []          # (k, d, form, ctx name, body, expectation)
+    for l in groups:
+        for e in l["ex"]:
+            if "same" in e:                  # same value as an earlier expression of the group: the spec shares the table
+                e["cx"], e["exp"] = l["ex"][e["same"] - 1]["cx"], l["ex"][e["same"] - 1]["exp"]
+            for ci, exp in zip(e["cx"], e["exp"]):
+                c = ctx[ci - 1]
+                items.append((l["k"], l["d"], e["f"], c["n"], src_body(c["t"], e), exp))
+    cases, meta = [], []
+    dumped = set(ctxl[0]["dump"])
+    for mode in ("", "dump"):
+        sel = items if not mode else [it for it in items if it[3] in dumped]
+        for c0 in range(0, len(sel), per_chunk):
+            part = sel[c0:c0 + per_chunk]
+            src = SRC_PRELUDE + "".join("E(%d, P(function(z, o, id) %s end, 0, 1, id))\n" % (j, it[4]) for j, it in enumerate(part))   # small ids only
+            case = {"id": len(cases), "src": src, "timeout": 30000, "maxev": 100000}
+            if mode:
+                case["mode"] = mode
+            cases.append(case)
+            meta.append((mode, c0, part))
+    outs = run_lua_cases(drv, cases)
+    nbad = 0
+    per_ctx, per_form, nskip = {}, {}, 0
+    for cid, (mode, c0, part) in enumerate(meta):
+        o = outs[cid]
+        if o.get("timeout") or o.get("crash") or o.get("panic") or not o.get("ok"):
+            # which function does not compile / crashes: run them one by one
+            culprits = []
+            one = [{"id": j, "src": SRC_PRELUDE + "E(0, P(function(z, o, id) %s end, 0, 1, id))\n" % it[4], "timeout": 10000,
+                    **({"mode": mode} if mode else {})} for j, it in enumerate(part)]
+            o1 = run_lua_cases(drv, one)
+            for j, it in enumerate(part):
+                x = o1[j]
+                if x.get("timeout") or x.get("crash") or x.get("panic") or not x.get("ok"):
+                    culprits.append((it, x))
+            if not culprits:
+                culprits = [(part[0], o)]
+            for it, x in culprits[:20]:
+                nbad += 1
+                why = "hang" if x.get("timeout") else ("compile-error" if x.get("compile_error") else "crash-or-error")
+                rep.violation({"fam": "srcnum", "why": why, "ctx": it[3], "form": it[2], "k": it[0], "d": it[1]},
+                              {"cmd": "lua-run", "kind": "srcnum", "lua": it[4], "mode": mode, "exp": it[5],
+                               "observed": {k: x.get(k) for k in ("timeout", "panic", "errstr", "compile_error", "stderr")}})
+            continue
+        got = {}
+        for ev in o["events"]:
+            got[int(ev[0]["i"])] = (ev[1], ev[2:])
+        for j, it in enumerate(part):
+            k, d, form, cn, body, exp = it
+            if j not in got:
+                raise Infra("no observation for %r" % body)
+            ok, vals = got[j]
+            if exp["k"] == "skip":
+                nskip += 1
+                continue
+            if exp["k"] == "err":
+                good = not ok
+                why = "no-error"
+            elif not ok:
+                good, why = False, "unexpected-error"
+            else:
+                ev_ = exp["v"]
+                vals = list(vals) + [None] * (len(ev_) - len(vals))      # trailing nils are not reported by the driver
+                good = len(vals) == len(ev_) and all(matches(x, True, v) for x, v in zip(ev_, vals))
+                why = "wrong-value"
+            cov["traces_validated_against_impl"] += 1
+            per_ctx[cn] = per_ctx.get(cn, 0) + 1
+            per_form[form] = per_form.get(form, 0) + 1
+            if not good:
+                nbad += 1
+                rep.violation({"fam": "srcnum", "why": why, "ctx": cn, "form": form, "k": k, "d": d},
+                              {"cmd": "lua-run", "kind": "srcnum", "lua": body, "mode": mode, "exp": exp,
+                               "expected": "an error" if exp["k"] == "err" else "; ".join(show(x) for x in exp["v"]),
+                               "observed": "; ".join(show_obs(True, v) for v in vals) if ok else show_obs(False, vals[0] if vals else None)})
+    cov["states"] += res.distinct
+    cov["transitions"] += res.generated
+    cov["configs"].append({"cfg": cfg, "source_programs": len(items), "also_through_dump_undump": len([it for it in items if it[3] in dumped]), "tlc_wall_s": round(res.wall, 1), "mismatching": nbad,
+                           "not_determined": nskip})
+    cov["srcnum_per_context"] = per_ctx
+    cov["srcnum_per_form"] = per_form
+    cov["undetermined_not_compared"] = cov.get("undetermined_not_compared", 0) + nskip
+    log("[%s] %s: %d (expression, context) programs from source + %d of them through dump/undump, %d mismatching, %d not determined" %
+        (rep.prop, cfg, len(items), len([it for it in items if it[3] in dumped]), nbad, nskip))
+    if items:
+        it = items[len(items) // 3]
+        rep.sample({"source_numeral_program": it[4], "expected": "error" if it[5]["k"] == "err" else [show(x) for x in it[5].get("v", [])]})
+
+
+# --------------------------------------------------------------------------
+# C16: loops whose bodies (or control expressions) assign to the variables the control expressions mention (NumForMut.tla).
+# The specification emits one expectation per (triple, body, effects) and the list of kind tuples it holds for; Python renders.
+
+MUT_CONFIGS = {"quick": "NumForMutQ.cfg", "thorough": "NumForMutT.cfg"}
+MUT_PRELUDE = ("local E, P = emit, pcall\n"
+               'local function t(id, k, ...) E(id, "x", k) return ... end\n'
+               'local function tf(id, k, x, f) E(id, "x", k) f() return x end\n')
+MUT_VARS = ("A", "B", "S")
+MUT_OUTER = {"upval", "global", "field"}      # storage outside the function that contains the loop
+
+
+def mut_name(x, kind):
+    """how the variable X is read / assigned, given the kind of the control expression of its position"""
+    return {"global": "G" + x, "field": "T." + x}.get(kind, x)
+
+
+def render_mut(cid, kinds, vals, body, fx, K):
+    name = {x: mut_name(x, k) for x, k in zip(MUT_VARS, kinds)}
+    name["V"] = "v"
+    out = ["do"]
+    if "field" in kinds:
+        out.append("local T = {}")
+    inner = []
+    for x, k, v in zip(MUT_VARS, kinds, vals):
+        decl = ("%s = %s" if k in ("global", "field") else "local %s = %s") % (name[x], spell(v))
+        (out if k in MUT_OUTER else inner).append(decl)
+    refs = []
+    for p, (x, k, v) in enumerate(zip(MUT_VARS, kinds, vals), 1):
+        f = fx["fx"][p - 1]
+        if f["x"]:
+            refs.append("tf(%d, %d, %s, function() %s = %s end)" % (cid, p, name[x], name[f["x"]], spell(f["v"])))
+        elif k == "lit":
+            refs.append(spell(v))
+        elif k == "paren":
+            refs.append("(%s)" % name[x])
+        elif k == "call":
+            refs.append("t(%d, %d, %s)" % (cid, p, name[x]))
+        else:
+            refs.append(name[x])
+    stmts = []
+    for sg in body["b"]:
+        lhs = name[sg["x"]]
+        stmts.append("%s = %s" % (lhs, spell(sg["v"])) if sg["op"] == "set" else "%s = %s + %s" % (lhs, lhs, spell(sg["v"])))
+    obs = ", ".join(name[x] for x in MUT_VARS)
+    out.append('E(%d, "r", P(function() %s local n = 0 for v = %s do E(%d, "v", v); %s; E(%d, "w", %s) n = n + 1 if n >= %d then break end end '
+               'E(%d, "end", %s) return n end))' % (cid, " ".join(inner), ", ".join(refs), cid, "; ".join(stmts), cid, obs, K, cid, obs))
+    out.append("end")
+    return "\n".join(out) + "\n"
+
+
+def mut_called(kinds, fx):
+    return sorted(p for p in (1, 2, 3) if fx["fx"][p - 1]["x"] or kinds[p - 1] == "call")
+
+
+def triple3(ev):
+    vals = list(ev[2:5])
+    return vals + [None] * (3 - len(vals))
+
+
+def check_mut(alts, evs, called):
+    """alts: the outcomes the spec allows; evs: events of the case. None (conforms / not compared) or a reason."""
+    xs = sorted(int(x[2]["i"]) for x in evs if x[1]["s"] == "x")
+    if xs != called:
+        return "control-expressions-not-evaluated-exactly-once"
+    if any(a["k"] == "skip" for a in alts):
+        return None
+    rs = [x for x in evs if x[1]["s"] == "r"]
+    if len(rs) != 1:
+        return "no-result"
+    ok = rs[0][2]
+    vs = [x[2] for x in evs if x[1]["s"] == "v"]
+    ws = [triple3(x) for x in evs if x[1]["s"] == "w"]
+    ends = [triple3(x) for x in evs if x[1]["s"] == "end"]
+
+    def same3(e3, o3):
+        return all(matches(e, True, o) for e, o in zip(e3, o3))
+
+    def fits(a):
+        if a["k"] == "err":
+            return (not ok) and not vs
+        if not ok or len(ends) != 1 or len(vs) != len(a["v"]) or len(ws) != len(vs) or int(rs[0][3]["i"]) != len(vs):
+            return False
+        return all(matches(e, True, o) for e, o in zip(a["v"], vs)) and all(same3(e, o) for e, o in zip(a["w"], ws)) and same3(a["end"], ends[0])
+
+    if any(fits(a) for a in alts):
+        return None
+    # label the discrepancy against the alternatives (labelling only)
+    if all(a["k"] == "err" for a in alts):
+        return "no-error"
+    if not ok:
+        return "unexpected-error"
+    runs = [a for a in alts if a["k"] == "run"]
+    if not any(len(a["v"]) == len(vs) and all(matches(e, True, o) for e, o in zip(a["v"], vs)) for a in runs):
+        if all(len(vs) > len(a["v"]) for a in runs):
+            return "too-many-iterations"
+        if all(len(vs) < len(a["v"]) for a in runs):
+            return "too-few-iterations"
+        return "wrong-iteration-values"
+    return "loop-changed-a-variable"
+
+
+def show_alt(a):
+    if a["k"] != "run":
+        return show(a)
+    return "values [%s]; (A, B, S) after each body [%s]; at the end (%s)" % (
+        "; ".join(show(x) for x in a["v"]), " | ".join(", ".join(show(x) for x in w) for w in a["w"]), ", ".join(show(x) for x in a["end"]))
+
+
+def run_formut(rep, drv, tier, per_chunk=60):
+    cov = rep.cov
+    cfg = MUT_CONFIGS[tier]
+    lines = []
+    res = run_tlc("NumForMut", cfg, timeout=3000, on_line=lines.append, workers=tlc_workers())
+    if res.violation:
+        raise Infra("NumForMut %s: %s" % (cfg, res.violation))
+    latl = [l for l in lines if l["t"] == "mlat"]
+    if len(latl) != 1:
+        raise Infra("no lattice line")
+    lat = latl[0]
+    K = lat["k"]
+    progs = []          # (body index, fx index, a, b, s, alts, kind tuple indices)
+    for l in lines:
+        if l["t"] == "mut":
+            for j, row in enumerate(l["r"], 1):
+                for bi, cell in zip(l["bodies"], row):
+                    progs.append((bi, l["fx"], l["a"], j, l["s"], cell["alts"], sorted(cell["kx"])))
+    nb = len(lat["bodies"])
+    ntrip = len(lat["starts"]) * len(lat["limits"]) * len(lat["steps"])
+    if len(progs) % ntrip or len(progs) < ntrip * nb:
+        raise Infra("%s: %d programs emitted, lattices of %d triples, %d bodies" % (cfg, len(progs), ntrip, nb))
+    progs.sort(key=lambda x: x[:5])
+    kinds_all = lat["kinds"]
+    items = [(pi, ki - 1) for pi, pr in enumerate(progs) for ki in pr[6]]
+    used_kinds = {}
+    cases, meta = [], []
+
+    def render_item(local_id, it):
+        bi, fi, a, b, st, alts, _ = progs[it[0]]
+        vals = (lat["starts"][a - 1], lat["limits"][b - 1], lat["steps"][st - 1])
+        return render_mut(local_id, kinds_all[it[1]], vals, lat["bodies"][bi - 1], lat["fxs"][fi - 1], K)
+
+    for c0 in range(0, len(items), per_chunk):
+        part = items[c0:c0 + per_chunk]
+        src = MUT_PRELUDE + "".join(render_item(j, it) for j, it in enumerate(part))
+        cases.append({"id": len(cases), "src": src, "timeout": 10000, "maxev": 100000})
+        meta.append(part)
+    outs = run_lua_cases(drv, cases)
+    nbad = 0
+    ncmp = 0
+    outcome = {"err": 0, "run": 0, "skip": 0}
+    per_body = {}
+    for cid, part in enumerate(meta):
+        o = outs[cid]
+        per = {}
+        if o.get("timeout") or o.get("crash") or o.get("panic") or not o.get("ok"):
+            for j, it in enumerate(part):
+                o1 = run_lua_cases(drv, [{"id": 0, "src": MUT_PRELUDE + render_item(0, it), "timeout": 5000}], nproc=1)[0]
+                if o1.get("timeout") or o1.get("crash") or o1.get("panic") or not o1.get("ok"):
+                    per[j] = ("bad", o1)
+                else:
+                    per[j] = ("ok", [[{"i": str(j)}] + e[1:] for e in o1["events"]])
+        else:
+            for ev in o["events"]:
+                per.setdefault(int(ev[0]["i"]), ("ok", []))[1].append(ev)
+        for j, it in enumerate(part):
+            bi, fi, a, b, st, alts, _ = progs[it[0]]
+            kinds = kinds_all[it[1]]
+            used_kinds[it[1]] = used_kinds.get(it[1], 0) + 1
+            body, fx = lat["bodies"][bi - 1], lat["fxs"][fi - 1]
+            stt, evs = per.get(j, ("ok", []))
+            if stt == "bad":
+                why = "hang" if evs.get("timeout") else "crash"
+            else:
+                why = check_mut(alts, evs, mut_called(kinds, fx))
+            if it[1] + 1 == progs[it[0]][6][0]:
+                outcome[alts[0]["k"]] += 1
+            if not any(x["k"] == "skip" for x in alts):
+                ncmp += 1
+                per_body[body["n"]] = per_body.get(body["n"], 0) + 1
+            if why:
+                nbad += 1
+                vals = (lat["starts"][a - 1], lat["limits"][b - 1], lat["steps"][st - 1])
+                sig = {"fam": "formut", "why": why, "body": body["n"], "fx": fx["n"], "start_kind": kinds[0], "limit_kind": kinds[1], "step_kind": kinds[2]}
+                rep.violation(sig, {"cmd": "lua-run", "kind": "formut", "program": MUT_PRELUDE + render_item(0, it), "alts": alts,
+                                    "called": mut_called(kinds, fx), "start": spell(vals[0]), "limit": spell(vals[1]), "step": spell(vals[2]),
+                                    "classes": [lat["cstarts"][a - 1], lat["climits"][b - 1], lat["csteps"][st - 1]],
+                                    "expected": " OR ".join(show_alt(x) for x in alts[:6]),
+                                    "observed": evs if stt == "bad" else [[x[1]["s"]] + x[2:] for x in evs]})
+    cov["traces_validated_against_impl"] += ncmp
+    cov["states"] += res.distinct
+    cov["transitions"] += res.generated
+    cov["configs"].append({"cfg": cfg, "spec_cases": len(progs), "kind_tuples": len(kinds_all), "kind_tuples_used": len(used_kinds),
+                           "programs": len(items), "K": K,
+                           "tlc_wall_s": round(res.wall, 1), "mismatching": nbad})
+    cov["formut_expected_outcomes"] = outcome
+    cov["formut_programs_per_body"] = per_body
+    log("[%s] %s: %d (triple, body, effects) cases, each under a rotating share of %d kind tuples = %d programs, %d mismatching; outcomes %s" %
+        (rep.prop, cfg, len(progs), len(kinds_all), len(items), nbad, outcome))
+    if items:
+        rep.sample({"formut_program": render_item(0, items[len(items) // 2])})
+    rep.assumptions += [
+        "the order in which the three control expressions are evaluated is not fixed by the manual: with side effects in them every order's outcome is accepted",
+        "a numeric string as start / limit / step: the loop may follow the string's syntax (integer loop for \"1\") or convert to floats; "
+        "what is compared is that the conversion happens once and that the variable keeps the string"]
+
+
 NUM_CONFIGS = {
-    "quick": [("pairs", "LuaNumPairsQ.cfg"), ("strops", "LuaNumStrQ.cfg"), ("numerals", "LuaNumNumeralsQ.cfg"), ("random", "LuaNumRandom.cfg")],
-    "thorough": [("pairs", "LuaNumPairsT.cfg"), ("strops", "LuaNumStrQ.cfg"), ("numerals", "LuaNumNumeralsT.cfg"), ("random", "LuaNumRandom.cfg")],
+    "quick": [("pairs", "LuaNumPairsQ.cfg"), ("strops", "LuaNumStrQ.cfg"), ("numerals", "LuaNumNumeralsQ.cfg"), ("random", "LuaNumRandom.cfg"),
+              ("srcnum", "LuaNumSrcQ.cfg")],
+    "thorough": [("pairs", "LuaNumPairsT.cfg"), ("strops", "LuaNumStrQ.cfg"), ("numerals", "LuaNumNumeralsT.cfg"), ("random", "LuaNumRandom.cfg"),
+                 ("srcnum", "LuaNumSrcT.cfg")],
 }
 RANDOM_PAIRS = {"quick": 100, "thorough": 2000}
 
@@ -397,10 +742,15 @@ def run(prop, tier, family="num"):
     drv = build_driver()
     only = os.environ.get("VERIF_LUANUM_ONLY")
     if family == "num":
-        for fam, cfg in NUM_CONFIGS[tier]:
-            if only and fam not in only.split(","):
-                continue
-            if fam == "numerals":
+        todo = [(fam, cfg) for fam, cfg in NUM_CONFIGS[tier] if not (only and fam not in only.split(","))]
+        box = None
+        for fam, cfg in todo:
+            if fam == "srcnum":
+                box = start_srcnum_tlc(cfg)         # overlaps with the other families
+        for fam, cfg in todo:
+            if fam == "srcnum":
+                run_srcnum(rep, drv, cfg, box)
+            elif fam == "numerals":
                 run_numerals(rep, drv, cfg)
             elif fam == "random":
                 run_random(rep, drv, cfg, RANDOM_PAIRS[tier])
@@ -414,7 +764,10 @@ def run(prop, tier, family="num"):
             "numeric strings in bitwise operators, math.tointeger and math.abs of strings are left open (version dependent)",
             "error messages are not compared, only error versus value"]
     else:
-        run_for(rep, drv, tier)
+        if not only or "for" in only.split(","):
+            run_for(rep, drv, tier)
+        if not only or "formut" in only.split(","):
+            run_formut(rep, drv, tier)
     return rep.finish()
 
 
@@ -484,6 +837,36 @@ def replay(prop, path, family="num"):
         ok, val = ev[0], (ev[1] if len(ev) > 1 else None)
         if matches(r["exp"], ok, val) is False:
             print("STILL-FAILING: %s gives %s, expected %s" % (body, show_obs(ok, val), show(r["exp"])))
+            return 1
+        return 0
+    if r.get("kind") == "srcnum":
+        c = {"id": 0, "src": SRC_PRELUDE + "E(0, P(function(z, o, id) %s end, 0, 1, id))\n" % r["lua"], "timeout": 10000}
+        if r.get("mode"):
+            c["mode"] = r["mode"]
+        o = run_lua_cases(drv, [c], nproc=1)[0]
+        if o.get("timeout") or o.get("crash") or o.get("panic") or not o.get("events"):
+            print("STILL-FAILING: %s: hang, crash or compile error: %s" % (r["lua"], json.dumps({k: o.get(k) for k in ("timeout", "panic", "errstr")})))
+            return 1
+        ev = o["events"][0]
+        ok, vals = ev[1], list(ev[2:])
+        exp = r["exp"]
+        if exp["k"] == "err":
+            good = not ok
+        else:
+            vals += [None] * (len(exp["v"]) - len(vals))
+            good = ok and len(vals) == len(exp["v"]) and all(matches(x, True, v) for x, v in zip(exp["v"], vals))
+        if not good:
+            print("STILL-FAILING: %s gives %s" % (r["lua"], "; ".join(show_obs(True, v) for v in vals) if ok else "an error"))
+            return 1
+        return 0
+    if r.get("kind") == "formut":
+        o = run_lua_cases(drv, [{"id": 0, "src": r["program"], "timeout": 5000}], nproc=1)[0]
+        if o.get("timeout") or o.get("crash") or o.get("panic") or not o.get("ok"):
+            print("STILL-FAILING: the program hangs or crashes")
+            return 1
+        why = check_mut(r["alts"], o["events"], r["called"])
+        if why:
+            print("STILL-FAILING: %s" % why)
             return 1
         return 0
     if r.get("kind") == "for":
